@@ -27,7 +27,7 @@ class C07(Property):
     ]
 
     def budget(self, tier):
-        return {"examples": 3000 if tier == "quick" else 120000, "shards": 12 if tier == "quick" else 16}
+        return {"examples": 10000 if tier == "quick" else 120000, "shards": 16}
 
     def strategy(self, tier):
         return st.one_of(T.time_courses(mode="lattice", tier=tier), T.time_courses(mode="motion", tier=tier))
